@@ -11,6 +11,9 @@ def logSeqs (ops : List Op) : List Nat :=
 /-- well-formed programs: per worker, the sequence numbers of its log calls increase -/
 def WF (progs : List (List Op)) : Prop := ∀ p ∈ progs, (logSeqs p).Pairwise (· < ·)
 
+/-- no worker logs through a `slog.Logger` obtained before `StartBuffering` (recorded finding K20f) -/
+def NoStale (progs : List (List Op)) : Prop := ∀ p ∈ progs, ∀ c, Op.log c ∈ p → c.stale = false
+
 /-! ### simp lemmas for the state updates -/
 
 @[simp] theorem emit_ws (s : St) (evs : List Ev) : (emit s evs).ws = s.ws := rfl
@@ -221,14 +224,19 @@ theorem sinv_advance {progs : List (List Op)} {s : St} (g : Nat) (h : SInv progs
         | log c =>
           simp only
           split
-          · exact sinv_finish h hw rfl (Or.inl rfl) h.f3 h.f4 h.f5 h.f6
-          · split
-            · rename_i hwb
-              simp only [emit_wrapped, emit_buffering, Bool.and_eq_true] at hwb
-              refine sinv_finish h hw rfl (Or.inl rfl) h.f3 h.f4 ?_ ?_
-              · intro hc; simp only [emit_buffering] at hc; rw [hwb.2] at hc; cases hc
-              · exact h.f6
+          · -- stale logger (K20f): straight to the final handler, or dropped by its own level
+            split
             · exact sinv_gate h hw rfl (fun hc => by cases hc) (Or.inl rfl) h.f3 h.f4 h.f5 h.f6
+            · exact sinv_finish h hw rfl (Or.inl rfl) h.f3 h.f4 h.f5 h.f6
+          · split
+            · exact sinv_finish h hw rfl (Or.inl rfl) h.f3 h.f4 h.f5 h.f6
+            · split
+              · rename_i hwb
+                simp only [emit_wrapped, emit_buffering, Bool.and_eq_true] at hwb
+                refine sinv_finish h hw rfl (Or.inl rfl) h.f3 h.f4 ?_ ?_
+                · intro hc; simp only [emit_buffering] at hc; rw [hwb.2] at hc; cases hc
+                · exact h.f6
+              · exact sinv_gate h hw rfl (fun hc => by cases hc) (Or.inl rfl) h.f3 h.f4 h.f5 h.f6
         | startBuffering =>
           simp only
           split
@@ -428,6 +436,19 @@ theorem logged_of_sync {progs : List (List Op)} {g : Nat} {w : Worker} {c : LogC
     exact List.mem_of_mem_drop this
   simp only [loggedSeqs, List.mem_filterMap]
   exact ⟨.log c, hmem, rfl⟩
+
+theorem stale_false_of_sync {progs : List (List Op)} {g : Nat} {w : Worker} {c : LogCall} {rest : List Op}
+    (hns : NoStale progs) (hsync : w.ops = (progs[g]?.getD []).drop w.idx) (hops : w.ops = .log c :: rest) :
+    c.stale = false := by
+  have hmem : Op.log c ∈ (progs[g]?.getD []) := by
+    have : Op.log c ∈ w.ops := by rw [hops]; simp
+    rw [hsync] at this
+    exact List.mem_of_mem_drop this
+  cases hp : progs[g]? with
+  | none => rw [hp] at hmem; simp at hmem
+  | some p =>
+    rw [hp] at hmem
+    exact hns p (List.mem_of_getElem? hp) c hmem
 
 theorem pass_after_finish {progs : List (List Op)} {s s' : St} {g : Nat} {w : Worker}
     (h : OInv progs s) (hw : s.ws[g]? = some w) (hws : s'.ws = s.ws)
@@ -654,8 +675,8 @@ theorem pendSeqs_snoc (s : St) (r : BRec) (g : Nat) :
   · simp [hg]
 
 /-- the order invariant is preserved by every segment of every worker -/
-theorem oinv_advance {progs : List (List Op)} {s : St} (g : Nat) (hs : SInv progs s) (h : OInv progs s) :
-    OInv progs (advance Flags.fixed s g) := by
+theorem oinv_advance {progs : List (List Op)} {s : St} (g : Nat) (hns : NoStale progs) (hs : SInv progs s)
+    (h : OInv progs s) : OInv progs (advance Flags.fixed s g) := by
   unfold advance
   split
   · exact h
@@ -709,6 +730,8 @@ theorem oinv_advance {progs : List (List Op)} {s : St} (g : Nat) (hs : SInv prog
         cases op with
         | log c =>
           simp only
+          have hst := stale_false_of_sync hns (hs.sync g w hw) hops
+          simp only [hst, Bool.false_eq_true, if_false]
           split
           · exact oinv_finish_quiet h hw rfl [.begin g w.idx] rfl (by simp [isWrite]) rfl
           · split
@@ -969,7 +992,7 @@ theorem drel_finish_plain {custom : Bool} {progs : List (List Op)} {s s' : St} {
 theorem accepted_of_must {level : Nat} {shutdown : Bool} {c : LogCall} (h : mustDeliver level shutdown c = true) :
     (decide (level ≤ c.lvl) && (c.derived || !shutdown)) = true ∧ c.fail = false := by
   simp only [mustDeliver, Bool.and_eq_true, decide_eq_true_eq, Bool.not_eq_true'] at h
-  obtain ⟨⟨h1, h2⟩, h3⟩ := h
+  obtain ⟨⟨⟨h1, h2⟩, h3⟩, _⟩ := h
   simp [h1, h2, h3]
 
 theorem mem_filter_not {l : List (Nat × Nat × Bool)} {g i : Nat} {x : Nat × Nat × Bool}
@@ -1046,7 +1069,7 @@ theorem filter_inCall_eq {l : List (Nat × Nat × Bool)} {g i : Nat} (b : Bool) 
 
 /-- the delivery relation is preserved by every segment of every worker -/
 theorem drel_advance {custom : Bool} {progs : List (List Op)} {s : St} {m : DMon} (g : Nat)
-    (hs : SInv progs s) (ho : OInv progs s) (h : DRel custom s m) :
+    (hns : NoStale progs) (hs : SInv progs s) (ho : OInv progs s) (h : DRel custom s m) :
     DStepTo custom progs s m (advance Flags.fixed s g) := by
   unfold advance
   split
@@ -1162,6 +1185,8 @@ theorem drel_advance {custom : Bool} {progs : List (List Op)} {s : St} {m : DMon
           have hany : ((g, w.idx, mustDeliver s.level s.shutdown c) :: m.inCall).any
               (fun x => x.1 == g && x.2.1 == w.idx && x.2.2) = mustDeliver s.level s.shutdown c := by
             simp [List.any_cons, any_inCall_false hno]
+          have hst := stale_false_of_sync hns (hs.sync g w hw) hops
+          simp only [hst, Bool.false_eq_true, if_false]
           split
           · -- not accepted: the call returns at once
             rename_i hrej
